@@ -91,6 +91,8 @@ type filterDriver interface {
 	Unregister(w *ecs.World)
 	Filter(w *ecs.World, t []ecs.Entity) ecs.Filter
 	Query(w *ecs.World, t []ecs.Entity, withRel bool) qres
+	// QuerySplit iterates like Query but calls between() after the k-th entity, with the query still open
+	QuerySplit(w *ecs.World, t []ecs.Entity, withRel bool, k int, between func()) qres
 }
 
 func collect0(q *generic.Query0, hasRel bool) qres {
@@ -1298,6 +1300,25 @@ func (f *flt0) Query(w *ecs.World, t []ecs.Entity, withRel bool) qres {
 	return r
 }
 
+func (f *flt0) QuerySplit(w *ecs.World, t []ecs.Entity, withRel bool, k int, between func()) qres {
+	q := f.f.Query(w, t...)
+	r := qres{count: q.Count(), hasRel: withRel}
+	for q.Next() {
+		r.ents = append(r.ents, q.Entity())
+		r.ptrs = append(r.ptrs, nil)
+		if withRel {
+			r.rel = append(r.rel, q.Relation())
+		}
+		if len(r.ents) == k {
+			between()
+		}
+	}
+	if len(r.ents) < k {
+		between()
+	}
+	return r
+}
+
 type c18Filt struct {
 	arity0      bool
 	f           filterDriver
@@ -1460,6 +1481,84 @@ func (r *c18Run) opFilter(c *cursor) *Violation {
 			return r.viol("FilterN.Query with a target was accepted by a filter that is registered or has a fixed target")
 		}
 		r.stats["filter-target-refused"]++
+	}
+	if !fl.registered && fl.nq > 0 && c.n(4) == 0 {
+		// a builder call naming a type the world does not know yet, and the first use of the filter after it while another
+		// query is open: registering the type is refused (locked world), the call panics - and must leave the filter as
+		// the builder configured it, not "compiled" with its previous selection
+		t := -1
+		for x := 0; x < 12; x++ {
+			if !r.G.reg[x] && !r.K.reg[x] && !inMap(x) && !contains2(fl.include, x) && !contains2(fl.exclude, x) {
+				t = x
+				break
+			}
+		}
+		if t >= 0 {
+			gl, kl := G.Query(ecs.All()), K.Query(ecs.All())
+			f.With(comps(t))
+			v, p := r.both("FilterN.Query naming an unknown type in a locked world", func() { f.Query(G, tl, withRel) }, func() { ecs.TypeID(K, c18Types[t]) })
+			gl.Close()
+			kl.Close()
+			fl.include = append(fl.include, t)
+			r.Concrete = append(r.Concrete, fmt.Sprintf("filter.With(%v) (unknown type), query refused in a locked world", c18Types[t]))
+			if v != nil {
+				return v
+			}
+			if !p {
+				return r.viol("FilterN.Query naming a component type that is not registered was accepted in a locked world")
+			}
+			r.stats["filter-compile-refused-under-lock"]++
+			// falls through to the ordinary query below: now the type can be registered and the filter must select with it
+		}
+	}
+	if !fl.registered && c.n(6) == 0 {
+		// a query held open across a builder call and a recompilation of the same filter object: the open query keeps
+		// the selection it was built with (like a core query keeps its filter value)
+		t := -1
+		t0 := c.n(12)
+		for i := 0; i < 12; i++ {
+			x := (t0 + i) % 12
+			if r.registered(x) && !inMap(x) && !contains2(fl.include, x) && !contains2(fl.exclude, x) {
+				t = x
+				break
+			}
+		}
+		k := 1 + c.n(3)
+		tl2 := tl
+		if fl.rel >= 0 && fl.fixedTarget == nil {
+			// and the same filter object is asked for another relation target meanwhile
+			other, _ := r.pick(c)
+			tl2 = []ecs.Entity{other}
+		} else {
+			c.n(1)
+		}
+		if t >= 0 {
+			kf := coreFilter(target)
+			var gq qres
+			var kents []ecs.Entity
+			var kn int
+			v, p := r.both(fmt.Sprintf("FilterN.Query #%d (held open across With + recompilation)", fl.nq), func() {
+				gq = f.QuerySplit(G, tl, withRel, k, func() {
+					f.With(comps(t))
+					f.Filter(G, tl2)
+				})
+			}, func() {
+				r.syncTypes()
+				q := K.Query(kf)
+				kents, kn = kCollect(&q)
+			})
+			fl.include = append(fl.include, t)
+			fl.nq++
+			r.Concrete = append(r.Concrete, fmt.Sprintf("filter query held open; filter.With(%v); recompiled", c18Types[t]))
+			if v != nil || p {
+				return v
+			}
+			if gq.count != kn || !sameEnts(gq.ents, kents) {
+				return r.viol("FilterN.Query held open across a builder call and a recompilation of its filter object visits %d entities (Count %d), the core query opened at the same moment %d (Count %d)", len(gq.ents), gq.count, len(kents), kn)
+			}
+			r.stats["filter-query-held-open-across-recompile"]++
+			return nil
+		}
 	}
 	var gq qres
 	var kents []ecs.Entity
